@@ -64,6 +64,9 @@ def run(ctx):
     ctx.rule('C17.c-work-travels', 'new() keeps the supplied work; the default-rate switch hands over engine and work from into_parts()')
     ctx.rule('C17.d-results-borrow', 'result/iterator structs hold references and scalars only; accessors return borrowed slices')
     ctx.rule('C17.a-stack-erasures', 'the 65536-entry erasure array is a stack local, not a heap allocation')
+    ctx.rule('C17.f-bitmap-need-from-configuration', 'the received bitmap is asked to cover max(original_base_pos + original_count, recovery_base_pos + recovery_count) positions and nothing else: its need never exceeds that of a configuration with more positions (clause shared with C08.e)')
+    from . import c08 as c08_
+    ctx.guard('C17.analysable', ctx.shared, {'C08.e-space-for-every-position': 'C17.f-bitmap-need-from-configuration'}, c08_.bitmap_covers, ctx, ctx.facts(cfgs[0]), cfgs[0])
     ctx.rule('C17.e-exact-need', 'the store is resized to exactly ceil(shard_bytes / 64) blocks per shard and work_count shards: a configuration that needs no more than what is held never grows the allocation')
     for cfg in cfgs:
         facts = ctx.facts(cfg)
